@@ -24,10 +24,12 @@ PID = "C04"
 
 
 def work(item):
-    tj, symtype, more_out, pmode, seed, timeout_ms = item
+    tj, symtype, more_out, pmode, seed, timeout_ms = item[:6]
+    bits = item[6] if len(item) > 6 else 0
+    flags = runs.flags_of(bits)
     topo = T_.Topo.from_json(tj)
     rng = random.Random(seed)
-    tag = f"{symtype}/{'mo' if more_out else 'no'}/{pmode}"
+    tag = f"{symtype}/{'mo' if more_out else 'no'}/{pmode}/opts{bits:06b}"
     acc = netcheck.Acc(f"{topo.name}:{tag}")
     ex = acc.d["extra"]
     ex["structural_facts"] = 0
@@ -59,9 +61,9 @@ def work(item):
     D = [netcheck.apply_numeric(c, numeric) for c in ref_metanet.admissible_domain(topo)]
     D = [c for c in D if not z3.is_true(z3.simplify(c))]
     levels = {}
-    for compact in (0, 1, 2):
+    for compact in (0, 1, 2, 3, -1):  # levels: <= 0, == 1, > 1 (documented); 3 and -1 must behave like 2 and 0
         try:
-            levels[compact] = compiled.compile_terms(topo, symtype, numeric, compact, more_out, None, declare, check_names=True)
+            levels[compact] = compiled.compile_terms(topo, symtype, numeric, compact, more_out, flags, declare, check_names=True)
             acc.d["encodings"] += 1
         except compiled.LayoutMismatch as e:
             acc.exec_violation(PID, topo, f"casadi[{tag}/c{compact}]", "array", f"layout: {e}", extra={"numeric": numeric, "compact": compact, "more_out": more_out})
@@ -84,7 +86,7 @@ def work(item):
     for k in range(n_state):
         facts.append((names_out[k] == names_in[k] + "+", f"result {k} '{names_out[k]}' is not the successor of argument {k} '{names_in[k]}'"))
         facts.append((F0.size_out(k) == F0.size_in(k), f"result {k} has size {F0.size_out(k)}, state argument {k} has size {F0.size_in(k)} (cannot be fed back)"))
-    for c in (1, 2):
+    for c in (1, 2, 3):
         if c in levels:
             Fc = levels[c].F
             facts.append((not Fc.has_free(), f"level {c} function has free symbols"))
@@ -96,12 +98,17 @@ def work(item):
         if not ok:
             acc.exec_violation(PID, topo, f"casadi[{tag}]", "array", f"structure: {msg}", extra={"numeric": numeric, "more_out": more_out})
     # ---- (a) level 0 results are the METANET successors of the same-position state arguments
-    ref = ref_metanet.Ref(topo)
+    QUANT = {"rho": "density", "v": "speed", "w": "queue"}
+    zmax0 = lambda t: z3.If(z3.RealVal(0) >= t, z3.RealVal(0), t)
+    ref = ref_metanet.Ref(topo, clamp_init=lambda kind, t: zmax0(t) if flags[f"positive_init_{kind}"] else t)
     for slot, s in c0.slot.items():
         if slot[0] != "next":
             continue
         _, el, stn, i = slot
-        r = netcheck.apply_numeric(ref.next[(el, stn)][i], numeric)
+        r = ref.next[(el, stn)][i]
+        if flags[f"positive_next_{QUANT[stn]}"]:
+            r = zmax0(r)
+        r = netcheck.apply_numeric(r, numeric)
         dom = D + [netcheck.apply_numeric(c, numeric) for c in ref.extra_domain.get((el, stn, i), [])]
 
         def on_sat(model, slot=slot, r=r):
@@ -112,11 +119,11 @@ def work(item):
             want = zeval.evalf(r, envn)
             if numrun.close(got, want, 1e-7, 1e-9):
                 return None
-            return viol(topo, tag, 0, slot, got, want, env, numeric, more_out, symtype, declare, "is not the METANET successor of the state argument in the same position")
+            return viol(topo, tag, 0, slot, got, want, env, numeric, more_out, symtype, declare, "is not the METANET successor of the state argument in the same position", bits)
 
         acc.query(prover, topo, f"casadi[{tag}/c0]", f"result {stn}_{el}+[{i}] == successor of argument {stn}_{el}[{i}]", s.t == r, dom, (), on_sat)
     # ---- (b) levels 1, 2 == level 0 up to the documented concatenation
-    for c in (1, 2):
+    for c in (1, 2, 3, -1):
         if c not in levels:
             continue
         for slot, s in levels[c].slot.items():
@@ -129,7 +136,7 @@ def work(item):
                 a, b = levels[c].numeric_call(env)[slot], levels[0].numeric_call(env)[slot]
                 if numrun.close(a, b, 1e-7, 1e-9):
                     return None
-                return viol(topo, tag, c, slot, a, b, env, numeric, more_out, symtype, declare, "differs from the level-0 function")
+                return viol(topo, tag, c, slot, a, b, env, numeric, more_out, symtype, declare, "differs from the level-0 function", bits)
 
             acc.query(prover, topo, f"casadi[{tag}/c{c}]", f"level {c} entry {slot} == level 0 entry", s.t == c0.slot[slot].t, D, (), on_sat)
         if set(levels[c].slot) != set(c0.slot):
@@ -137,11 +144,11 @@ def work(item):
     return acc.done(prover)
 
 
-def viol(topo, tag, c, slot, got, want, env, numeric, more_out, symtype, declare, why):
+def viol(topo, tag, c, slot, got, want, env, numeric, more_out, symtype, declare, why, bits=0):
     return {"key": f"layout:{topo.name}:{tag}:c{c}:{slot}", "group": f"layout:{topo.name}:c{c}",
             "what": f"{topo.describe()} | {tag} compact={c}: entry {slot} = {got!r} {why} ({want!r})",
             "replay": {"property": PID, "kind": "layout", "topo": topo.to_json(), "symtype": symtype, "more_out": more_out, "compact": c, "slot": list(slot),
-                       "env": env, "numeric": numeric, "declare": declare}}
+                       "env": env, "numeric": numeric, "declare": declare, "bits": bits}}
 
 
 def replay(rec):
@@ -151,15 +158,19 @@ def replay(rec):
     topo = T_.Topo.from_json(rec["topo"])
     numeric, declare = rec["numeric"], rec["declare"]
     slot = tuple(rec["slot"])
-    c = compiled.compile_terms(topo, rec["symtype"], numeric, rec["compact"], rec["more_out"], None, declare)
+    flags = runs.flags_of(rec.get("bits", 0))
+    c = compiled.compile_terms(topo, rec["symtype"], numeric, rec["compact"], rec["more_out"], flags, declare)
     got = c.numeric_call(rec["env"])[slot]
     if rec["compact"] == 0:
-        ref = ref_metanet.Ref(topo)
+        zmax0 = lambda t: z3.If(z3.RealVal(0) >= t, z3.RealVal(0), t)
+        ref = ref_metanet.Ref(topo, clamp_init=lambda kind, t: zmax0(t) if flags[f"positive_init_{kind}"] else t)
         envn = dict(rec["env"])
         envn.update({k: float(v) for k, v in numeric.items()})
         want = zeval.evalf(netcheck.apply_numeric(ref.next[(slot[1], slot[2])][slot[3]], numeric), envn)
+        if flags["positive_next_" + {"rho": "density", "v": "speed", "w": "queue"}[slot[2]]]:
+            want = max(0.0, want)
     else:
-        want = compiled.compile_terms(topo, rec["symtype"], numeric, 0, rec["more_out"], None, declare).numeric_call(rec["env"])[slot]
+        want = compiled.compile_terms(topo, rec["symtype"], numeric, 0, rec["more_out"], flags, declare).numeric_call(rec["env"])[slot]
     print(f"entry {slot}: function gives {got!r}, expected {want!r}")
     return 0 if numrun.close(got, want, 1e-7, 1e-9) else 1
 
@@ -179,8 +190,14 @@ def main():
     items = []
     for k, t in enumerate(topos):
         use = cfgs if t.name.startswith("k") else [cfgs[k % len(cfgs)]]
-        for (s, mo, pm) in use:
-            items.append((t.to_json(), s, mo, pm, args.seed + k, timeout))
+        for j, (s, mo, pm) in enumerate(use):
+            items.append((t.to_json(), s, mo, pm, args.seed + k, timeout, 0))
+            if args.thorough or (j + k) % 3 == 0:
+                # positivity options on: arguments are recovered from clamped expressions (a different code path of to_function)
+                items.append((t.to_json(), s, mo, pm, args.seed + k, timeout, 0b111111 if (j + k) % 2 == 0 else 0b000011))
+    long = families.long_link()
+    for (s, mo, pm, bits) in [("SX", False, "all", 0b111111), ("MX", False, "all", 0b111111), ("SX", True, "none", 0b000011), ("SX", False, "subset", 0)]:
+        items.append((long.to_json(), s, mo, pm, args.seed, timeout, bits))
     if args.only:
         items = [it for it in items if args.only in it[0]["name"]]
     results = harness.pmap(work, items, args.serial)
@@ -189,7 +206,8 @@ def main():
         tot, levels, samples, st, len(items),
         "program = (topology, SX|MX, more_out, declared-parameter mode all|subset(reversed order)|none) compiled at levels 0,1,2; queries: level-0 result == METANET "
         "successor of the same-position state argument (per component); level-1/2 entry == level-0 entry (per entry); plus structural facts read from the signature",
-        {"bounds": {"family": "K (18 curated) x " + ("12" if args.thorough else "3") + " configurations" + (" + E(3,4)" if args.thorough else "")},
+        {"bounds": {"family": "K (18 curated) x " + ("12" if args.thorough else "3") + " configurations (+ positivity-option variants) + one 12-segment link topology" + (" + E(3,4)" if args.thorough else ""),
+                    "compactness_levels": "-1, 0, 1, 2, 3 (documented classes: <= 0, == 1, > 1)"},
          "structural_facts_checked": extra.get("structural_facts", 0),
          "functions_encoded": ["Engine.to_function, _filter_vars, _gather_inputs, _gather_outputs, _add_parameters_to_inputs, _add_flows_to_outputs (executed; IR translated)",
                                "Network.elements/states/actions/disturbances/next_states enumeration"]})
